@@ -16,16 +16,28 @@ fn main() {
     let code: i32 = args.get(2).and_then(|a| String::from_utf8_lossy(a).parse().ok()).unwrap_or(0);
     let flags = args.get(3).cloned().unwrap_or_default();
     let mut stdin_data = Vec::new();
+    // raw results of using the three streams: -1 = not attempted, 0 = ok, >0 = errno
+    let (mut in_res, mut out_res, mut err_res) = (-1i32, -1i32, -1i32);
+    let errno = |e: std::io::Error| e.raw_os_error().unwrap_or(9999);
     if flags.contains(&b'i') {
-        let _ = std::io::stdin().read_to_end(&mut stdin_data);
+        in_res = match std::io::stdin().read_to_end(&mut stdin_data) {
+            Ok(_) => 0,
+            Err(e) => errno(e),
+        };
     }
     if flags.contains(&b'o') {
-        let _ = std::io::stdout().write_all(b"OUT");
-        let _ = std::io::stdout().flush();
+        out_res = match unsafe { libc::write(1, b"OUT".as_ptr().cast(), 3) } {
+            3 => 0,
+            _ => errno(std::io::Error::last_os_error()),
+        };
     }
     if flags.contains(&b'e') {
-        let _ = std::io::stderr().write_all(b"ERR");
+        err_res = match unsafe { libc::write(2, b"ERR".as_ptr().cast(), 3) } {
+            3 => 0,
+            _ => errno(std::io::Error::last_os_error()),
+        };
     }
+    let _ = std::io::stdout().flush();
     // raw environment block (vars_os skips malformed entries): read /proc/self/environ
     let raw_env = std::fs::read("/proc/self/environ").unwrap_or_default();
     let mut fds = Vec::new();
@@ -46,7 +58,7 @@ fn main() {
     let cwd = std::env::current_dir().map(|p| p.into_os_string().into_vec()).unwrap_or_default();
     let (pid, pgid, ppid, uid, gid) = unsafe { (libc::getpid(), libc::getpgid(0), libc::getppid(), libc::getuid(), libc::getgid()) };
     let json = format!(
-        "{{\"args\":[{}],\"env\":[{}],\"raw_env\":\"{}\",\"cwd\":\"{}\",\"pid\":{pid},\"pgid\":{pgid},\"ppid\":{ppid},\"uid\":{uid},\"gid\":{gid},\"stdin\":\"{}\",\"fds\":[{}]}}",
+        "{{\"args\":[{}],\"env\":[{}],\"raw_env\":\"{}\",\"cwd\":\"{}\",\"pid\":{pid},\"pgid\":{pgid},\"ppid\":{ppid},\"uid\":{uid},\"gid\":{gid},\"stdin\":\"{}\",\"in_res\":{in_res},\"out_res\":{out_res},\"err_res\":{err_res},\"fds\":[{}]}}",
         args.iter().map(|a| format!("\"{}\"", hex(a))).collect::<Vec<_>>().join(","),
         envs.iter().map(|a| format!("\"{}\"", hex(a))).collect::<Vec<_>>().join(","),
         hex(&raw_env),
